@@ -133,22 +133,23 @@ class Flow:
         paths = self.call_body(func, [Path(facts=frozenset(facts))])
         return dedupe(paths)
 
-    def call_body(self, func, paths):
+    def call_body(self, func, paths, param_facts=None):
         """Run func's body on each path; outcome RETURN becomes NORMAL for the caller."""
         depth = len(self.stack)
         fkey = f'$frame{depth}'
         entered = []
         for p in paths:
-            loc = frozenset((k, v) for k, v in p.facts if k.startswith('L:') or k.startswith('$caught'))
-            rest = frozenset((k, v) for k, v in p.facts if not (k.startswith('L:') or k.startswith('$caught')))
-            entered.append(Path(p.events, rest | {(fkey, loc)}, p.outcome))
+            loc = frozenset((k, v) for k, v in p.facts if k.startswith('L:') or k.startswith('$caught') or k.startswith('$val:'))
+            rest = frozenset((k, v) for k, v in p.facts if not (k.startswith('L:') or k.startswith('$caught') or k.startswith('$val:') or k == '$ret'))
+            init = frozenset(('L:' + k, v) for k, v in (param_facts or {}).items())
+            entered.append(Path(p.events, rest | {(fkey, loc)} | init, p.outcome))
         self.stack.append(func)
         try:
             out = []
             for p in self.block(func, func.node.body, entered):
                 saved = p.fact(fkey) or frozenset()
                 rest = frozenset((k, v) for k, v in p.facts
-                                 if not (k.startswith('L:') or k.startswith('$caught') or k == fkey))
+                                 if not (k.startswith('L:') or k.startswith('$caught') or k.startswith('$val:') or k == fkey))
                 q = Path(p.events, rest | saved, p.outcome)
                 if q.outcome in (RETURN, NORMAL):
                     out.append(q.out(NORMAL))
@@ -170,6 +171,8 @@ class Flow:
             nxt = []
             for p in live:
                 for q in self.stmt(func, st, p):
+                    if q.outcome == NORMAL and any(k.startswith('$val:') for k, v in q.facts):
+                        q = Path(q.events, frozenset((k, v) for k, v in q.facts if not k.startswith('$val:')), q.outcome)
                     (nxt if q.outcome == NORMAL else done).append(q)
             live = dedupe(nxt)
             if len(live) + len(done) > self.max_paths:
@@ -268,6 +271,8 @@ class Flow:
             if q.outcome != NORMAL:
                 res.append(q)
             else:
+                rv = self.value_fact(st.value, q) if st.value is not None else 'None'
+                q = q.with_fact('$ret', rv)
                 res.append(self.ev(q, 'return', '', '', func, st).out(RETURN))
         return res
 
@@ -467,11 +472,26 @@ class Flow:
     def set_local(self, p, name, value):
         return p.with_fact('L:' + name, value)
 
+    def value_fact(self, e, p):
+        """'None' / 'NotNone' / None(unknown) for the value of expression e on path p"""
+        if isinstance(e, ast.Constant):
+            return 'None' if e.value is None else 'NotNone'
+        if isinstance(e, ast.Name):
+            v = p.fact('L:' + e.id)
+            return v if v in ('None', 'NotNone') else None
+        if isinstance(e, ast.Call):
+            return p.fact(f'$val:{id(e)}')
+        return None
+
     def bind_fact(self, func, target, value, p):
         """remember simple facts about locals: None / not-None / bool constants / hasattr results."""
         if not isinstance(target, ast.Name):
             return p
         v = None
+        if isinstance(value, ast.Call) and p.fact(f'$val:{id(value)}') is not None:
+            return p.with_fact('L:' + target.id, p.fact(f'$val:{id(value)}'))
+        if isinstance(value, ast.Name) and p.fact('L:' + value.id) in ('None', 'NotNone'):
+            return p.with_fact('L:' + target.id, p.fact('L:' + value.id))
         if isinstance(value, ast.Constant):
             if value.value is None:
                 v = 'None'
@@ -710,8 +730,27 @@ class Flow:
                 and self.can_inline(callee) and self.inline(callee, call, func):
             q = self.ev(p, 'call', name, 'inline', func, call)
             self.inlined.add(callee.key)
-            out = self.call_body(callee, [q])
-            return out
+            # facts about the arguments travel into the callee's parameters, the returned value's fact travels back
+            params = list(callee.params)
+            if params and params[0] in ('self', 'cls') and callee.cls is not None \
+                    and not any(norm(d) == 'staticmethod' for d in callee.node.decorator_list):
+                params = params[1:]
+            pf = {}
+            for i, a in enumerate(call.args):
+                if i < len(params):
+                    pf[params[i]] = self.value_fact(a, p)
+            for k in call.keywords:
+                if k.arg:
+                    pf[k.arg] = self.value_fact(k.value, p)
+            out = self.call_body(callee, [q], param_facts={k: v for k, v in pf.items() if v})
+            res = []
+            for r in out:
+                rv = r.fact('$ret')
+                r = r.with_fact('$ret', None)
+                if rv and r.outcome == NORMAL:
+                    r = r.with_fact(f'$val:{id(call)}', rv)
+                res.append(r)
+            return res
         self.opaque_calls.add(name)
         q = self.ev(p, 'call', name, 'opaque' if callee is None else 'known', func, call)
         res = [q]
